@@ -8,9 +8,17 @@ sys.path.insert(0, os.path.dirname(os.path.dirname(os.path.abspath(__file__))))
 recdir = sys.argv[1]
 CAP = 0.5  # an envelope above 50 % would let a field of zero pass: such buckets are findings, not tolerances
 recs = [json.loads(l) for f in glob.glob(os.path.join(recdir, "*.jsonl")) for l in open(f)]
-def tb(t): return "0" if t <= 0 else str(int(np.clip(np.floor(np.log10(t)), -17, 3)))
+def tb(t): return "exact" if t <= 0 else str(int(np.clip(np.floor(np.log10(t)), -17, 3)))
 def db(d): return str(int(np.clip(np.floor(np.log10(max(d, 1e-30))), -4, 4)))
 tab = {}
+def env(m):
+    """envelope of a bucket whose largest calibration error is m: 100 x m, at least 1e-6, at most CAP;
+    a bucket in which the library is already off by more than CAP is unusable for comparison: 'unchecked' (-1)"""
+    if m > CAP:
+        return -1.0
+    return float(min(CAP, max(1e-6, 100 * m)))
+
+
 def known(r):
     """records inside the scope of an open finding do not calibrate the envelope"""
     if r["cls"] == "CylinderSegment" and r.get("raxis", 1e30) < 1e-3:
@@ -28,35 +36,36 @@ for r in recs:
     c["n"] += 1
     # near-field records calibrate the t table, far-field records (d >= 3 L) the d table
     if r["d"] >= 3:
-        k = db(r["d"]); c["d"].setdefault(k, []).append(r["err"])
+        k = db(r["d"]); c["d"].setdefault("aligned" if r["t"] < 1e-3 * r["d"] else "free", {}).setdefault(k, []).append(r["err"])
     else:
         k = tb(r["t"]); c["t"].setdefault(r.get("near", "surface"), {}).setdefault(k, []).append(r["err"])
 for cls in sorted(tab):
     print(cls, "n =", tab[cls]["n"])
     for near in sorted(tab[cls]["t"]):
-        keys = sorted(tab[cls]["t"][near], key=lambda x: (x != "0", int(x)))
+        keys = sorted(tab[cls]["t"][near], key=lambda x: (x != "exact", int(x) if x != "exact" else 0))
         print("    t", near, " ".join(f"[{k}: {max(tab[cls]['t'][near][k]):.1e}/{len(tab[cls]['t'][near][k])}]" for k in keys))
-    keys = sorted(tab[cls]["d"], key=int)
-    print("    d", " ".join(f"[{k}: {max(tab[cls]['d'][k]):.1e}/{len(tab[cls]['d'][k])}]" for k in keys))
+    for al in sorted(tab[cls]["d"]):
+        keys = sorted(tab[cls]["d"][al], key=int)
+        print("    d", al, " ".join(f"[{k}: {max(tab[cls]['d'][al][k]):.1e}/{len(tab[cls]['d'][al][k])}]" for k in keys))
 if "--write" in sys.argv:
     out = {}
     for cls, c in tab.items():
         out[cls] = {"default": 1e-6, "t": {}, "d": {}}
         for near, buckets in c["t"].items():
             out[cls]["t"][near] = {}
-            ks = sorted(buckets, key=lambda x: (x != "0", int(x)))
+            ks = sorted(buckets, key=lambda x: (x != "exact", int(x) if x != "exact" else 0))
             raw = {k: max(buckets[k]) for k in ks}
             for k in ks:
                 # widen by the neighbouring buckets (one decade each way); the exact set ("0") stands alone
                 vals = [raw[k]]
-                if k != "0":
+                if k != "exact":
                     vals += [raw[j] for j in (str(int(k) - 1), str(int(k) + 1)) if j in raw]
-                out[cls]["t"][near][k] = float(min(CAP, max(1e-6, 100 * max(vals))))
-        for k, v in c["d"].items():
-            out[cls]["d"][k] = float(min(CAP, max(1e-6, 100 * max(v))))
+                out[cls]["t"][near][k] = env(max(vals))
+        for al, buckets in c["d"].items():
+            out[cls]["d"][al] = {k: env(max(v)) for k, v in buckets.items()}
     p = os.path.join(os.path.dirname(os.path.dirname(os.path.abspath(__file__))), "tolerances.json")
     cur = json.load(open(p)) if os.path.exists(p) else {}
     cur["C01"] = out
-    cur["C01_note"] = "envelope = min(1, max(1e-6, 100 x largest relative deviation from the quadrature oracle seen per class and bucket on the unchanged tree)); buckets: floor(log10(t/L)) for d < 3 L, floor(log10(d/L)) beyond; see DESIGN.md 4.6"
+    cur["C01_note"] = "value -1 = bucket not checked (library deviates by more than 50 % there on the unchanged tree: documented-weak region); envelope = min(1, max(1e-6, 100 x largest relative deviation from the quadrature oracle seen per class and bucket on the unchanged tree)); buckets: floor(log10(t/L)) for d < 3 L, floor(log10(d/L)) beyond; see DESIGN.md 4.6"
     json.dump(cur, open(p, "w"), indent=1, sort_keys=True)
     print("written", p)
